@@ -96,6 +96,12 @@ def find_cause_pep484585_container_args_1(
     # ....................{ SATISFY ~ empty                }....................
     # If either...
     if (
+        # This container is *NOT* a collection (e.g., a generator satisfying
+        # the quasi-iterable hint "Iterable[int]"), this container is neither
+        # safely sizeable *NOR* safely reiterable and has thus *NOT* been deeply
+        # type-checked. Notably, passing a non-collection to the len() builtin
+        # below would raise a non-human-readable "TypeError" *OR*...
+        not isinstance(cause.pith, Collection) or
         # This container is empty, *ALL* items of this container (of which there
         # are none) are necessarily valid *OR*...
         #
